@@ -170,48 +170,104 @@ Proof.
 Qed.
 
 (* setup_task_paths with its refusal: it refuses exactly when the corrected
-   output name is an input; otherwise neither of the two paths it unlinks
-   (output, temporary name) is an input file *)
-Lemma existsb_zlist : forall o l,
-    existsb (zlist_eqb o) l = true <-> In o l.
+   output path or its temporary path is an input; otherwise neither of the
+   two paths it unlinks is an input file - for ANY input names (also with
+   check_suffix=False) and resolved directories *)
+Lemma fpath_eqb_eq : forall a b, fpath_eqb a b = true <-> a = b.
+Proof.
+  intros [d1 n1] [d2 n2]. unfold fpath_eqb; simpl. split.
+  - intros H. apply andb_true_iff in H as (H1 & H2).
+    apply Z.eqb_eq in H1. apply zlist_eqb_eq in H2. subst; auto.
+  - intros H. inversion H; subst. rewrite Z.eqb_refl, zlist_eqb_refl. auto.
+Qed.
+
+Lemma existsb_fpath : forall o l,
+    existsb (fpath_eqb o) l = true <-> In o l.
 Proof.
   intros o l. rewrite existsb_exists. split.
-  - intros (x & Hin & E). apply zlist_eqb_eq in E. subst; auto.
-  - intros H. exists o. split; auto. apply zlist_eqb_refl.
+  - intros (x & Hin & E). apply fpath_eqb_eq in E. subst; auto.
+  - intros H. exists o. split; auto. apply fpath_eqb_eq. reflexivity.
 Qed.
 
-Theorem setup_refuses_iff : forall inputs name,
-    setup_paths inputs name = None <-> In (normalize_out name) inputs.
+Theorem setup_refuses_iff : forall inputs d name,
+    setup_paths_at inputs d name = None
+    <-> In (d, normalize_out name) inputs
+        \/ In (d, temp_of (normalize_out name)) inputs.
 Proof.
-  intros inputs name. unfold setup_paths.
-  destruct (existsb (zlist_eqb (normalize_out name)) inputs) eqn:E.
-  - apply existsb_zlist in E. tauto.
-  - split; [discriminate|]. intros H. apply existsb_zlist in H. congruence.
+  intros inputs d name. unfold setup_paths_at.
+  destruct (existsb (fpath_eqb (d, normalize_out name)) inputs) eqn:E1;
+    destruct (existsb (fpath_eqb (d, temp_of (normalize_out name))) inputs)
+      eqn:E2; simpl.
+  - apply existsb_fpath in E1. tauto.
+  - apply existsb_fpath in E1. tauto.
+  - apply existsb_fpath in E2. tauto.
+  - split; [discriminate|]. intros [H|H]; apply existsb_fpath in H; congruence.
 Qed.
 
-Theorem setup_unlinks_no_input : forall inputs name o t,
+Theorem setup_unlinks_no_input : forall inputs d name o t,
     name <> [] ->
-    (forall inp, In inp inputs -> allowed_input inp = true) ->
-    setup_paths inputs name = Some (o, t) ->
-    o = normalize_out name /\ t = o ++ [tilde]
+    setup_paths_at inputs d name = Some (o, t) ->
+    o = (d, normalize_out name) /\ t = (d, snd o ++ [tilde])
     /\ ~ In o inputs /\ ~ In t inputs.
 Proof.
-  intros inputs name o t Hne Hal H. unfold setup_paths in H.
-  destruct (existsb (zlist_eqb (normalize_out name)) inputs) eqn:E;
-    try discriminate.
-  inversion H; subst o t; clear H.
-  split; auto. split; [apply temp_is_out_tilde; auto|].
-  split.
-  - intros Hin. apply existsb_zlist in Hin. congruence.
-  - intros Hin. apply (temp_not_an_input name _ Hne (Hal _ Hin)). reflexivity.
+  intros inputs d name o t Hne H. unfold setup_paths_at in H.
+  destruct (existsb (fpath_eqb (d, normalize_out name)) inputs) eqn:E1;
+    destruct (existsb (fpath_eqb (d, temp_of (normalize_out name))) inputs)
+      eqn:E2; simpl in H; try discriminate.
+  inversion H; subst o t; clear H. simpl.
+  split; auto. split; [rewrite temp_is_out_tilde; auto|].
+  split; intros Hin; apply existsb_fpath in Hin; congruence.
 Qed.
 
-(* "in" for the input "in.rtdc" is refused; "in.repacked" is not *)
+(* with the suffix check in force (.rtdc/.tdms inputs) the temporary path can
+   never be an input: the task refuses exactly when the output is an input *)
+Theorem setup_refuses_allowed : forall inputs d name,
+    name <> [] ->
+    (forall inp, In inp inputs -> allowed_input (snd inp) = true) ->
+    (setup_paths_at inputs d name = None
+     <-> In (d, normalize_out name) inputs).
+Proof.
+  intros inputs d name Hne Hal. rewrite setup_refuses_iff. split; auto.
+  intros [H|H]; auto. exfalso.
+  apply (temp_not_an_input name _ Hne (Hal _ H)). reflexivity.
+Qed.
+
+(* split: neither <stem>_NNNN.rtdc nor its temporary name is the input
+   <stem><suffix> (a pathlib suffix is empty or starts with a dot) *)
+Theorem split_names_not_input : forall stem digits sfx,
+    (sfx = [] \/ exists r, sfx = dot :: r) ->
+    split_out stem digits <> stem ++ sfx
+    /\ temp_of (split_out stem digits) = split_out stem digits ++ [tilde]
+    /\ temp_of (split_out stem digits) <> stem ++ sfx.
+Proof.
+  intros stem digits sfx Hs.
+  assert (Hshape : split_out stem digits
+                   = (stem ++ [underscore] ++ digits) ++ s_rtdc)
+    by (unfold split_out; rewrite <- !app_assoc; reflexivity).
+  assert (Hne : stem ++ [underscore] ++ digits <> [])
+    by (destruct stem; discriminate).
+  assert (Ht : temp_of (split_out stem digits)
+               = split_out stem digits ++ [tilde])
+    by (rewrite Hshape; apply temp_of_rtdc_name; auto).
+  split; [|split]; auto.
+  - unfold split_out. intros E. apply app_inv_head in E.
+    destruct Hs as [Hs|(r & Hs)]; subst sfx; simpl in E; discriminate.
+  - rewrite Ht. unfold split_out. rewrite <- app_assoc. intros E.
+    apply app_inv_head in E.
+    destruct Hs as [Hs|(r & Hs)]; subst sfx; simpl in E; discriminate.
+Qed.
+
+(* "in" for the input "in.rtdc" is refused; "in.repacked" is not; the
+   temporary name of "x.rtdc" is refused as input "x.rtdc~"; the same names
+   in another directory are fine *)
 Example ex_setup_refuses :
   setup_paths [[105; 110] ++ s_rtdc] [105; 110] = None
   /\ setup_paths [[105; 110] ++ s_rtdc] ([105; 110] ++ [46; 120])
      = Some ([105; 110; 46; 120] ++ s_rtdc,
-             [105; 110; 46; 120] ++ s_rtdc ++ [tilde]).
+             [105; 110; 46; 120] ++ s_rtdc ++ [tilde])
+  /\ setup_paths_at [(1, [120] ++ s_rtdc_tilde)] 1 ([120] ++ s_rtdc) = None
+  /\ setup_paths_at [(2, [120] ++ s_rtdc_tilde)] 1 ([120] ++ s_rtdc)
+     = Some ((1, [120] ++ s_rtdc), (1, [120] ++ s_rtdc_tilde)).
 Proof. vm_compute. auto. Qed.
 
 (* non-vacuity: "out" -> ("out.rtdc", "out.rtdc~");  "a.b.rtdc" keeps its name *)
